@@ -126,12 +126,20 @@ pub struct HistCase {
     pub kind: DynKind,
     pub shape: String,
     pub ops: Vec<HOp>,
+    /// How the solver object is built: "factory" (monitored SAT factory, the default), "new",
+    /// "default" (the `Default` impl) or "arg-factor" (`new_with_arg_factor`): the public
+    /// constructors that take no factory, so the SAT boundary is not observed for them.
+    pub ctor: String,
 }
 
 impl HistCase {
     pub fn to_json(&self) -> Value {
-        json!({"config": self.kind.to_json(), "shape": self.shape,
-               "history": self.ops.iter().map(|o| o.to_json()).collect::<Vec<_>>()})
+        let mut j = json!({"config": self.kind.to_json(), "shape": self.shape,
+               "history": self.ops.iter().map(|o| o.to_json()).collect::<Vec<_>>()});
+        if self.ctor != "factory" {
+            j["constructor"] = json!(self.ctor);
+        }
+        j
     }
     pub fn from_json(v: &Value) -> Option<HistCase> {
         Some(HistCase {
@@ -143,6 +151,7 @@ impl HistCase {
                 .iter()
                 .map(HOp::from_json)
                 .collect::<Option<Vec<_>>>()?,
+            ctor: v.get("constructor").and_then(|c| c.as_str()).unwrap_or("factory").to_string(),
         })
     }
 }
@@ -330,8 +339,38 @@ fn dummy_factories(sem: Sem, h: MonHandle) -> (Box<CredFactory>, Box<SkepFactory
 }
 
 pub fn make_solver(kind: &DynKind, h: MonHandle, backend: Backend) -> Result<Box<dyn DynObj>, PanicInfo> {
+    make_solver_ctor(kind, h, backend, "factory")
+}
+
+/// The constructors that take no SAT-solver factory (`new`, `Default::default`,
+/// `new_with_arg_factor`): what a library user writes first.  The SAT boundary is not monitored.
+fn make_solver_without_factory(kind: &DynKind, ctor: &str) -> Option<Box<dyn DynObj>> {
+    Some(match (kind, ctor) {
+        (DynKind::Co, "new") => Box::new(DynBox { s: DynamicCompleteSemanticsSolver::<usize>::new() }),
+        (DynKind::Co, "default") => Box::new(DynBox { s: DynamicCompleteSemanticsSolver::<usize>::default() }),
+        (DynKind::St, "new") => Box::new(DynBox { s: DynamicStableSemanticsSolver::<usize>::new() }),
+        (DynKind::St, "default") => Box::new(DynBox { s: DynamicStableSemanticsSolver::<usize>::default() }),
+        (DynKind::Pr, "new") => Box::new(DynBox { s: DynamicPreferredSemanticsSolver::<usize>::new() }),
+        (DynKind::Pr, "default") => Box::new(DynBox { s: DynamicPreferredSemanticsSolver::<usize>::default() }),
+        (DynKind::CoAtt(_), "new") => Box::new(DynBox { s: DynamicCompleteSemanticsSolverAttacks::<usize>::new() }),
+        (DynKind::CoAtt(_), "default") => Box::new(DynBox { s: DynamicCompleteSemanticsSolverAttacks::<usize>::default() }),
+        (DynKind::CoAtt(f), "arg-factor") => Box::new(DynBox { s: DynamicCompleteSemanticsSolverAttacks::<usize>::new_with_arg_factor(*f) }),
+        (DynKind::StAtt(_), "new") => Box::new(DynBox { s: DynamicStableSemanticsSolverAttacks::<usize>::new() }),
+        (DynKind::StAtt(_), "default") => Box::new(DynBox { s: DynamicStableSemanticsSolverAttacks::<usize>::default() }),
+        (DynKind::StAtt(f), "arg-factor") => Box::new(DynBox { s: DynamicStableSemanticsSolverAttacks::<usize>::new_with_arg_factor(*f) }),
+        _ => return None,
+    })
+}
+
+pub fn make_solver_ctor(kind: &DynKind, h: MonHandle, backend: Backend, ctor: &str) -> Result<Box<dyn DynObj>, PanicInfo> {
     let kind = kind.clone();
+    let ctor = ctor.to_string();
     catch(move || -> Box<dyn DynObj> {
+        if ctor != "factory" {
+            if let Some(s) = make_solver_without_factory(&kind, &ctor) {
+                return s;
+            }
+        }
         let fac = monitor::monitored_factory(backend, h.clone());
         match kind {
             DynKind::Co => Box::new(DynBox {
@@ -775,6 +814,7 @@ pub fn gen_history(rng: &mut Rng, kind: &DynKind, shape: &str, max_len: usize, f
         kind: kind.clone(),
         shape: shape.to_string(),
         ops: g.ops,
+        ctor: "factory".to_string(),
     }
 }
 
@@ -835,8 +875,9 @@ fn judge_history_inner(prop: &str, case: &HistCase, ctx: &mut HistOutcome) {
         s.keep_clauses = true;
         s.keep_models = false;
     }
-    let sname = case.kind.name();
-    let mut solver = match make_solver(&case.kind, h.clone(), Backend::Cadical) {
+    let sname = if case.ctor == "factory" { case.kind.name() } else { format!("{}[{}]", case.kind.name(), case.ctor) };
+    let monitored = case.ctor == "factory" || matches!(case.kind, DynKind::Dummy(_));
+    let mut solver = match make_solver_ctor(&case.kind, h.clone(), Backend::Cadical, &case.ctor) {
         Ok(s) => s,
         Err(p) => {
             ctx.violation(
@@ -940,7 +981,9 @@ fn judge_history_inner(prop: &str, case: &HistCase, ctx: &mut HistOutcome) {
                 let calls = h.borrow().n_calls - calls_before;
                 let insts = h.borrow().instances.len() - insts_before;
                 ctx.count_by("sat_calls", calls as u64);
-                if calls == 0 && !matches!(case.kind, DynKind::Dummy(Sem::GR)) {
+                if !monitored {
+                    ctx.count("coverage/queries-on-objects-from-factory-less-constructors");
+                } else if calls == 0 && !matches!(case.kind, DynKind::Dummy(Sem::GR)) {
                     ctx.count("coverage/queries-with-zero-sat-calls");
                 }
                 if updates_since_query > 0 {
@@ -1055,7 +1098,10 @@ fn judge_history_inner(prop: &str, case: &HistCase, ctx: &mut HistOutcome) {
             ctx.count_by("sat_contract_errors_seen", s.contract_errors.len() as u64);
         }
     }
-    ctx.count(&format!("histories/{}", sname));
+    ctx.count(&format!("histories/{}", case.kind.name()));
+    if case.ctor != "factory" {
+        ctx.count(&format!("constructors/{}", sname));
+    }
     ctx.count(&format!("shapes/{}", case.shape));
     ctx.nontrivial = nontrivial && (prop == "C08" || had_fault);
     ctx.final_framework = shadow.to_json();
@@ -1172,7 +1218,16 @@ pub fn run(ctx: &mut Ctx, prop: &str) {
         } else {
             *rng.pick(&[12usize, 25, 40])
         };
-        let case = gen_history(&mut rng, &kind, shape, max_len, fault_pct);
+        let mut case = gen_history(&mut rng, &kind, shape, max_len, fault_pct);
+        // one history in twelve is put to an object built by a constructor that takes no factory
+        // (`new`, `Default`, `new_with_arg_factor`): configurations a user reaches first
+        if !matches!(kind, DynKind::Dummy(_)) && rng.pct(8) {
+            let ctors: &[&str] = match kind {
+                DynKind::CoAtt(_) | DynKind::StAtt(_) => &["new", "default", "arg-factor", "arg-factor"],
+                _ => &["new", "default"],
+            };
+            case.ctor = rng.pick(ctors).to_string();
+        }
         if i % 64 == 0 {
             ctx.case_begin(&json!({"i": i, "solver": kind.name(), "shape": shape}));
         }
